@@ -48,7 +48,8 @@ set_option maxHeartbeats 16000000 in
 `new_cyclic` has just finished building. -/
 theorem stepFrame_val (c : Cfg) (w : World) (f : Frame) :
     ∀ x, ((stepFrame c w f).heap x).lv.2 = true →
-      (w.heap x).lv.2 = true ∨ x = w.next ∨ (∃ k sp sw, f = .newCyclicEnd k x sp sw) := by
+      (w.heap x).lv.2 = true ∨ (x = w.next ∧ ((stepFrame c w f).heap x).lv.1 = true) ∨
+        (∃ k sp sw, f = .newCyclicEnd k x sp sw ∧ ((stepFrame c w f).heap x).lv.1 = (w.heap x).lv.1) := by
   cases f with
   | script ops self wc top =>
     cases ops with
@@ -129,35 +130,52 @@ theorem stepFrame_val (c : Cfg) (w : World) (f : Frame) :
   | newAlloc k sp =>
     simp only [stepFrame]
     intro x hx
-    rw [putH_lv] at hx
+    rw [putH_lv] at hx ⊢
     by_cases e : x = w.next
-    · exact Or.inr (Or.inl e)
+    · exact Or.inr (Or.inl ⟨e, by subst e; simp [World.emit, Heap.set, Obj.lv, newObj]⟩)
     · exact Or.inl (by simpa [World.emit, Heap.set, e] using hx)
   | newCyclicAlloc k sp body selfw =>
     simp only [stepFrame]
     split <;>
     · intro x hx
       by_cases e : x = w.next
-      · exact Or.inr (Or.inl e)
+      · exact Or.inr (Or.inl ⟨e, by subst e; simp [World.emit, World.push, World.updMeta, Heap.set, Obj.lv, newObj]⟩)
       · exact Or.inl (by simpa [World.emit, World.push, World.updMeta, Heap.set, e] using hx)
   | mapAlloc owner =>
     simp only [stepFrame]
     split
     · intro x hx
       by_cases e : x = w.next
-      · exact Or.inr (Or.inl e)
+      · refine Or.inr (Or.inl ⟨e, ?_⟩)
+        subst e
+        simp only [upd_lv_same _ _ (fun o : Obj => { o with cmap := some w.next }) _ (fun _ => ⟨rfl, rfl⟩)]
+        simp [World.emit, Heap.set, Obj.lv]
       · refine Or.inl ?_
         simp only [upd_lv_same _ _ (fun o : Obj => { o with cmap := some w.next }) _ (fun _ => ⟨rfl, rfl⟩)] at hx
         simpa [World.emit, World.push, Heap.set, e] using hx
     · intro x hx
       by_cases e : x = w.next
-      · exact Or.inr (Or.inl e)
+      · exact Or.inr (Or.inl ⟨e, by subst e; simp [World.emit, World.push, Heap.set, Obj.lv]⟩)
       · refine Or.inl ?_
         simpa [World.emit, World.push, Heap.set, e] using hx
   | newCyclicEnd k id sp selfw =>
     intro x hx
     by_cases e : x = id
-    · subst e; exact Or.inr (Or.inr ⟨k, sp, selfw, rfl⟩)
+    · subst e
+      refine Or.inr (Or.inr ⟨k, sp, selfw, rfl, ?_⟩)
+      cases selfw with
+      | none =>
+        simp only [stepFrame]
+        split
+        · simp [World.push]
+        · rw [putH_lv, weakDrop_lv]
+          split <;> simp [World.upd, Obj.lv, World.updMeta]
+      | some j =>
+        simp only [stepFrame]
+        split
+        · simp [World.push]
+        · rw [putH_lv, weakDrop_lv]
+          split <;> simp [World.upd, Obj.lv, World.updMeta]
     · refine Or.inl ?_
       cases selfw with
       | none =>
@@ -367,7 +385,7 @@ theorem histR_deadOk (c : Cfg) (nH nW nK : Nat) (w : World) (log : List Event) (
           cases hv : ((stepFrame c { w with stack := rest } f).heap x).lv.2 with
           | false => rfl
           | true =>
-            rcases stepFrame_val c { w with stack := rest } f x hv with h | h | ⟨k, sp, sw, h⟩
+            rcases stepFrame_val c { w with stack := rest } f x hv with h | ⟨h, _⟩ | ⟨k, sp, sw, h, _⟩
             · rw [show (({ w with stack := rest } : World).heap x).lv.2 = (w.heap x).lv.2 from rfl, h1] at h; cases h
             · exact absurd h (Nat.ne_of_lt h3)
             · subst h
